@@ -17,6 +17,6 @@ INVARIANT FlagMatchesGeometry
 INVARIANT DistanceOK
 INVARIANT RoundingBounded
 INVARIANT DirFromMomentum
-INVARIANT Emit
 PROPERTY ProgressOK
+PROPERTY Terminates
 CHECK_DEADLOCK TRUE
